@@ -26,6 +26,10 @@ type Workload struct {
 	Serial bool
 	// PerCaseTimeoutS overrides the default watchdog allowance per batch.
 	BatchTimeoutS int
+	// Procs: GOMAXPROCS of the worker (default 1).
+	Procs int
+	// MaxWorkers caps the number of parallel workers for this workload (0 = default).
+	MaxWorkers int
 }
 
 // Check is implemented once per property.
